@@ -158,7 +158,7 @@ def run(ctx):
             for tz in ('UTC', 'America/New_York', 'Pacific/Honolulu', 'Asia/Tokyo'):
                 cases.append(AppCase(['stats'], (), g=g, env=e, cfg=cfgd, files=files, disk=True, tz=tz,
                                      meta={'kind': 'load:today', 'setting': 'today', 'flag': flag, 'env': False, 'cfg': cfg, 'where': where, 'winner': 'flag' if flag else 'cfg',
-                                           'variant': tz, 'expect': ('contains', ('  Today:              %s\n' % want).encode())}))
+                                           'variant': tz, 'expect': ('contains', ('  Today:              %s\n  First record:       2020/03/01 (%d days ago)\n' % (want, 431 if flag else 3)).encode())}))
     # interactions: dates on the command line are read in the effective date format, whatever its source
     for fsrc in ('flag', 'env', 'cfg', 'default'):
         for where in (('default', 'flag', 'env') if fsrc == 'cfg' else ('none',)):
